@@ -390,7 +390,8 @@ func definitelyError(v ssa.Value) bool {
 	case *ssa.UnOp:
 		if x.Op == token.MUL {
 			if g, ok := x.X.(*ssa.Global); ok {
-				return (len(g.Name()) > 3 && g.Name()[:3] == "Err") || g.Name() == "EOF"
+				n := g.Name()
+				return (len(n) > 3 && (n[:3] == "Err" || n[:3] == "err")) || n == "EOF"
 			}
 		}
 	case *ssa.Alloc:
